@@ -1,0 +1,19 @@
+//go:build verif
+
+// Machine-checked specifications for package authgrants (comment-only file;
+// read by /verif/bin/hopvc).
+
+package authgrants
+
+// RemoveAuthgrants consumes the grants stored for exactly (user, key): it
+// succeeds iff an entry exists, returns exactly that entry, and removes it.
+// The body is one critical section under agLock (verified as an atomic action).
+//@ func (m *AuthgrantMapSync) RemoveAuthgrants(user string, key keys.DHPublicKey) (ags []Authgrant, err error)
+//@   property C05 C07
+//@   atomic
+//@   modifies mapof(m.agMap[user])
+//@   ensures err == nil <==> (old(has(m.agMap, user)) && old(has(m.agMap[user], key)))
+//@   ensures err == nil ==> !has(m.agMap[user], key)
+//@   ensures err == nil ==> ref(ags) == ref(old(m.agMap[user][key])) && off(ags) == off(old(m.agMap[user][key])) && len(ags) == len(old(m.agMap[user][key]))
+//@   ensures err != nil ==> len(ags) == 0
+//@   ensures forall k [32]uint8 :: k != key ==> (has(m.agMap[user], k) <==> old(has(m.agMap[user], k)))
